@@ -4,6 +4,7 @@ import Victron.Model.Select
 import Victron.Model.Frame
 import Victron.Gen.Tables
 import Victron.Model.Api
+import Victron.Model.Cli
 /- Line-protocol driver for the Tables cone (C12–C17): lookups over the regenerated tables and the list algebra. -/
 open Victron
 
@@ -192,6 +193,28 @@ def step (line : String) : String :=
       | .err e => "err:" ++ e.toString
       | .panic => "PANIC"
     else "bad-op"
+  | ["CL", id, ping, silent, mp] =>
+    match id.toNat?, parseMap mp with
+    | some id, some m =>
+      let rl := (sel id).1
+      let order := (planned rl {}).map (·.address)
+      let answered : List Nat := match silent.toNat? with
+        | some k => order.take k
+        | none => order
+      let tr : Transport := ⟨(if ping = "ok" then .ok () else .err .other), .ok id,
+        fun a => if answered.contains a then getOf m a else .err .other⟩
+      let o := Cli.run tr Gen.products Gen.types fam Gen.enums Gen.fieldLists
+      let st := match o.status with | .ok => "ok" | .connectError => "connect-error" | .fetchError => "fetch-error"
+      let cnt := match o.count with | some n => toString n | none => "-1"
+      let txt := fun (l : Cli.Line) => match l.val with
+        | .num raw factor offset => s!"{l.name}=P({raw}*1/{factor}+{offset}){l.unit}"
+        | .text bs => s!"{l.name}={String.fromUTF8! (ByteArray.mk (bs.map (fun (b : Nat) => b.toUInt8)).toArray)}"
+        | .enum i n => s!"{l.name}={i}:{n}"
+        | .fields _ comma => s!"{l.name}={comma}"
+      -- presentation only: lines with equal sort key are put in name order (Go's order among them is random)
+      let canonLines := o.lines.mergeSort (fun a b => decide (a.sort < b.sort) || (decide (a.sort = b.sort) && decide (a.name ≤ b.name)))
+      s!"{st} n={cnt} " ++ String.intercalate ";;" (canonLines.map (fun l => s!"{l.sort}|{txt l}"))
+    | _, _ => "bad-op"
   | ["ST", hs, cancel, spec, mp] =>
     match parseListSpec spec, parseMap mp with
     | some rl, some m =>
